@@ -28,6 +28,9 @@ def main():
         if prop == "C14":
             import check_config
             return check_config.check(prop, tier, seed, replay)
+        if prop == "C13":
+            import check_codec
+            return check_codec.check(prop, tier, seed, replay)
         print("no check for", prop)
         return 2
     except vlib.Infra as e:
